@@ -214,8 +214,15 @@ fn is_modified(entry: &FileEntry, prior: &SyncState) -> bool {
         return true;
     }
 
-    // Mtime change = likely modified
+    // Mtime change = likely modified. A time stamp that moved BACKWARDS counts as well (an older
+    // version restored with `cp -p`, an unpacked archive, `touch -d`): such an edit of the same
+    // size was invisible, the two sides stayed different without any report and the next change of
+    // the other side overwrote it. A second of slack for file systems with coarse time stamps.
     entry.modified > prior.mtime
+        || prior
+            .mtime
+            .duration_since(entry.modified)
+            .is_ok_and(|older_by| older_by > std::time::Duration::from_secs(1))
 }
 
 /// Whether two entries hold the same content (used when recording the synchronised state)
